@@ -335,6 +335,7 @@ PROPS["C16"] = dict(
 
 PROPS["C17"] = dict(
     gen=cases.gen_C17,
+    snapshot_modules=["Rrtk.Thm.Lemmas.C17Snapshot"],
     extra=extras.c17_extra,
     mask={"cat", "time", "float"},
     rule="six Reference variants x random sequences of up to 12 operations over {clone, to_dyn!, borrow+read, borrow_mut+write, "
